@@ -21,7 +21,8 @@ Record scenario : Type := mkScn {
   s_faults : list (name * phase * name);   (* (processor, callback, component) that returns an error *)
   s_loader_fail : bool;                    (* a configuration loader returns an error *)
   s_app : option (name * nat * nat);       (* the App component: its name, runner point, closer point *)
-  s_oracle : list name                     (* enumeration order of the registries on an unrepaired tree *)
+  s_oracle : list name                     (* enumeration order of the registries: an arbitrary oracle on an unrepaired
+                                              tree, replaced by the name order by [App.normalise] on a repaired one *)
 }.
 
 Inductive event : Type :=
@@ -211,12 +212,12 @@ Definition inject (vt : variant) (s : scenario) (st : fstate) (h : name) (k : na
 Definition cfg_stage (c : comp) (prefix : bool) : bool :=   (* true = a required value is missing *)
   existsb (fun cp => Bool.eqb (cp_prefix cp) prefix && cp_required cp && negb (cp_sat cp)) (c_cpoints c).
 
-Fixpoint add_candidates (vt : variant) (s : scenario) (func : bool) (ps : list point)
+Fixpoint add_candidates (s : scenario) (func : bool) (ps : list point)
   (inj : list (list (option name))) : list (list (option name)) :=
   match ps, inj with
   | p :: ps', i :: inj' =>
-    (if Bool.eqb (is_func_point p) func then i ++ candidates vt (s_oracle s) (s_pop s) p else i)
-      :: add_candidates vt s func ps' inj'
+    (if Bool.eqb (is_func_point p) func then i ++ candidates (s_oracle s) (s_pop s) p else i)
+      :: add_candidates s func ps' inj'
   | _, _ => inj
   end.
 
@@ -228,8 +229,8 @@ Fixpoint pipeline (vt : variant) (s : scenario) (n : name) (c : comp) (ps : list
     match proc_of (s_pop s) p with
     | Some (PBuiltin BProps) => if cfg_stage c true then Fail (FErr ECfg) st else pipeline vt s n c r st inj
     | Some (PBuiltin BValue) => if cfg_stage c false then Fail (FErr ECfg) st else pipeline vt s n c r st inj
-    | Some (PBuiltin BWire) => pipeline vt s n c r st (add_candidates vt s false (c_points c) inj)
-    | Some (PBuiltin BFunc) => pipeline vt s n c r st (add_candidates vt s true (c_points c) inj)
+    | Some (PBuiltin BWire) => pipeline vt s n c r st (add_candidates s false (c_points c) inj)
+    | Some (PBuiltin BFunc) => pipeline vt s n c r st (add_candidates s true (c_points c) inj)
     | Some (PBuiltin BFurther) =>
       match further_loop vt (s_pop s) n (c_points c) inj with
       | LOk inj' => pipeline vt s n c r st inj'
